@@ -15,7 +15,7 @@ COND_NAMES = {
     0: "b", 1: "not b", 2: "p(x)", 3: "x == o1", 4: "n < c", 5: "c <= n", 6: "b or p(x)", 7: "exists y:S. p(y)",
     8: "forall y:T. p(y) or b", 9: "n <= u (u undefined)", 10: "w(x) == o1", 11: "p(w(x))", 12: "not p(x)", 13: "n + 1 <= c",
     14: "F(n) < c (interpreted function)", 15: "st(x) (static Boolean fluent, default true)", 16: "exists y:T. p(y)",
-    17: "m(x) <= c",
+    17: "m(x) <= c", 18: "u <= n (u undefined, LEFT operand: the walker has n's value before it fails on u)",
 }
 EFF_NAMES = {
     0: "b := false", 1: "when C: b := true", 2: "n += d", 3: "n -= d", 4: "n := c1", 5: "when C: n := c2",
@@ -97,14 +97,14 @@ def _build(ctx, sk, env=None):
     _c = set(sk.get("pre", [])) | set(sk.get("goal", [0])) | set(sk.get("pre2", [])) | {sk.get("effcond", 2), sk.get("effcond2", 0)}
     _e = set(sk["effs"]) | set(sk.get("second_action") or [])
     minimal = sk.get("minimal", False)
-    need_u = (not minimal) or bool(_c & {9}) or bool(_e & {11, 17, 18, 19})
+    need_u = (not minimal) or bool(_c & {9, 18}) or bool(_e & {11, 17, 18, 19})
     need_st = bool(_c & {15})
     if need_st:
         g.st = Fluent(nm("st"), tm.BoolType(), environment=env, **{nm("x"): T})
         prob.add_fluent(g.st, default_initial_value=True)
     need_w = (not minimal) or bool(_c & {10, 11}) or bool(_e & {7, 14, 21})
     need_m = bool(_c & {17}) or bool(_e & {22, 23})
-    need_n = (not minimal and not need_m) or bool(_c & {4, 5, 9, 13, 14}) or bool(_e & {2, 3, 4, 5, 8, 9, 16, 17}) or 0 in sk.get("inv", [])
+    need_n = (not minimal and not need_m) or bool(_c & {4, 5, 9, 13, 14, 18}) or bool(_e & {2, 3, 4, 5, 8, 9, 16, 17}) or 0 in sk.get("inv", [])
     g.has = dict(u=need_u, w=need_w, n=need_n, m=need_m)
     for fl, need in ((b, True), (p, True), (w, need_w), (u, need_u), (n, need_n), (m, need_m)):
         if need:
@@ -164,6 +164,8 @@ def _build(ctx, sk, env=None):
             return em.Exists(em.FluentExp(p, [em.VariableExp(y)]), y)
         if i == 17:
             return em.LE(em.FluentExp(m, [x]), em.Int(C("c")))
+        if i == 18:
+            return em.LE(em.FluentExp(u), em.FluentExp(n))
         raise ValueError(i)
 
     g.cond = cond
